@@ -49,6 +49,10 @@ let () =
           Buffer.add_string b (Printf.sprintf " %d:%s:%s" rt (s (Rwinfo.reg_group (n_of_int rt))) (s (Rwinfo.reg_size (n_of_int rt))))
         done;
         Buffer.add_string b (Printf.sprintf " zmask=%s er=%s movop=%s" (s Rwinfo.optZMask) (s Rwinfo.optER) (s Rwinfo.kMovOp));
+        Buffer.add_string b (Printf.sprintf " R=%s W=%s RegMem=%s Consecutive=%s ZExt=%s RegPhysId=%s MemPhysId=%s MemBaseRead=%s MemBaseRW=%s MemIndexRead=%s MemIndexRW=%s rmPextrw=%s rmMovssMovsd=%s rmFeatureIfRMI=%s implicitZ=%s idBad=%s"
+          (s Rwinfo.fR) (s Rwinfo.fW) (s Rwinfo.fRegM) (s Rwinfo.fConsecutive) (s Rwinfo.fZExt) (s Rwinfo.fRegPhys) (s Rwinfo.fMemPhys) (s Rwinfo.fMemBaseRead)
+          (s Rwinfo.fMemBaseRW) (s Rwinfo.fMemIndexRead) (s Rwinfo.fMemIndexRW) (s Rwinfo.rmFlagPextrw) (s Rwinfo.rmFlagMovssMovsd) (s Rwinfo.rmFlagFeatureIfRMI)
+          (s Rwinfo.kImplicitZ) (s Rwinfo.kIdBad));
         print_endline (Buffer.contents b)
       | "Q" :: arch :: id :: opts :: extra :: nops :: ops ->
         (try
